@@ -38,4 +38,10 @@ def jobs(tier):
                  encodes=["bus_driver_handle_remove_match", "bus_driver_send_ack_reply"], stubs=["parser / matchmaker / reply construction = outcome stubs with ghost counters"],
                  assumes=["bus_dispatch answers a handler error other than NoMemory with an error reply in the same transaction (C03/C05 dispatch skeleton)"],
                  bounds="every outcome of parsing, reply construction, reply staging and rule lookup", shape="RemoveMatch reply"))
+    # C07.c: value quoting of the rule grammar (tokenizer kernel) against the specification text
+    for n in (1, 2, 3, 4, 5, 6, 7):
+        J.append(Job(name=f"c.quoting.N{n}", group="C07.c", harness="harness/C07_parse.c", defines={"N": n}, real=["dbus/dbus-list.c"], env=["assert_stubs.c", "mem.c", "memfuncs.c", "pool_lock.c", "msg_model.c"],
+                     checks="assert", unwind=n + 3, unwindset=["strcmp.0:48", "strlen.0:8", "memcpy.0:40", "memmove.0:40", "memmove.1:40", f"find_value.0:{2 * n + 3}"], timeout=600, extra=["--object-bits", "11"],
+                     encodes=["find_value", "_dbus_string_append_byte"], stubs=["_dbus_string_init = pool buffers (R19)"],
+                     bounds=f"every value text of exactly {n} non-NUL bytes (full alphabet)", shape=f"value text of {n} bytes"))
     return J
